@@ -39,7 +39,8 @@ fn key_timeline(k: K) -> Option<CTimeline> {
 }
 
 fn chain_maps() -> Vec<Option<Vec<(K, K)>>> {
-    vec![None, Some(vec![(K::A, K::B)]), Some(vec![(K::A, K::B), (K::B, K::A)]), Some(vec![(K::A, K::N)]), Some(vec![(K::B, K::C)])]
+    // the last map is built with AnimationChain::reset_after(B) = {B -> K::default() = A}
+    vec![None, Some(vec![(K::A, K::B)]), Some(vec![(K::A, K::B), (K::B, K::A)]), Some(vec![(K::A, K::N)]), Some(vec![(K::B, K::C)]), Some(vec![(K::B, K::A)])]
 }
 
 fn chain_lookup(m: &Option<Vec<(K, K)>>, k: K) -> Option<K> {
@@ -131,7 +132,7 @@ fn observe(world: &World, e: Entity) -> Obs {
 fn case_json(sched: &[f64], ent: &Ent) -> Value {
     json!({"frame_deltas_s": sched, "key_assignment_before_each_frame": ent.assign.iter().map(|k| k.map(|k| format!("{k:?}"))).collect::<Vec<_>>(), "chain_map_index": ent.chain,
            "chain_map": chain_maps()[ent.chain].as_ref().map(|v| v.iter().map(|(a, b)| format!("{a:?}->{b:?}")).collect::<Vec<_>>()), "second_animated_component": ent.two,
-           "keys": {"A": "0.5 s, x 10->20", "B": "0.5 s after 0.25 s, x 100->200", "C": "0.5 s infinite, x -10->-20", "N": "no timeline"}, "initial_key": "A", "initial_component": {"x": 3.0, "n": 33, "y": 7.0}})
+           "keys": {"A": "0.5 s, x 10->20", "B": "0.5 s after 0.25 s, x 100->200", "C": "0.5 s infinite, x -10->-20", "N": "no timeline"}, "initial_key": if ent.chain % 2 == 1 { "B (AnimationSelectorBuilder::initial_key)" } else { "A (default)" }, "initial_component": {"x": 3.0, "n": 33, "y": 7.0}})
 }
 
 fn run_schedule(sched: &[f64], assigns: &[Vec<Option<K>>], chain_first: bool, rank0: u64, acc: &mut Acc) {
@@ -150,13 +151,21 @@ fn run_schedule(sched: &[f64], assigns: &[Vec<Option<K>>], chain_first: bool, ra
                 for k in [K::A, K::B, K::C] {
                     sb = sb.add(k, key_timeline(k).unwrap());
                 }
+                // initial key: the default (A) or, for every other chain map, B through the builder
+                if mi % 2 == 1 {
+                    sb = sb.initial_key(K::B);
+                }
                 let mut ec = d.app.world.spawn((C::initial(), Animator::<C>::new(), sb.build()));
                 if let Some(entries) = m {
-                    let mut cb = AnimationChainBuilder::<K>::new();
-                    for (a, b) in entries {
-                        cb = cb.add(*a, *b);
+                    if mi == maps.len() - 1 {
+                        ec.insert(AnimationChain::<K>::reset_after(K::B));
+                    } else {
+                        let mut cb = AnimationChainBuilder::<K>::new();
+                        for (a, b) in entries {
+                            cb = cb.add(*a, *b);
+                        }
+                        ec.insert(cb.build());
                     }
-                    ec.insert(cb.build());
                 }
                 if two {
                     ec.insert((Q::default(), Animator::<Q>::with_timeline(qtl.clone())));
@@ -362,7 +371,7 @@ pub fn run(run: Run) -> ! {
     cov.insert("traces_validated_against_impl".into(), json!(acc.apps));
     cov.insert("evaluations".into(), json!(acc.rule_checks));
     cov.insert("distinct_nontrivial".into(), json!(acc.switches + acc.chain_fires));
-    cov.insert("rule".into(), json!(format!("real headless bevy App (AnimationPlugin<C>, AnimationPlugin<Q>, register_animation_key::<C,K>, hand-driven Time): ALL {} frame-delta schedules of length {} over {{1/4, 8, 0}} s x ALL {} key-assignment histories (before each frame: nothing or key := A|B|C|N, including the current key) x 5 chain maps (none, A->B, A->B+B->A, A->N, B->C) x {{one animated component, a second component Q with its own short animator}}; plus a deviation-bounded pass ({} schedules of {} frames, default delta 1/4, <= {} deviations) with <= 2 assignments. Rules: S1 component unchanged in the frame a key change is acted on; S2 animation restarted from position 0 on the new key's timeline, thereafter the component equals that timeline started from the values at the switch; S3 key without timeline: state None, component frozen; S4 re-assigning the current key restarts nothing; S5 governed animator ended on k in frame f and chain(k)=k' and the user did not re-assign => key is k' in frame f+1; S6 the key changes only by assignment or S5 (the Ended must come from the governed animator and be applied to the key that ended). non-trivial = key changes acted on + chain moves", nsched, depth, hs.len(), dev_apps, horizon, k)));
+    cov.insert("rule".into(), json!(format!("real headless bevy App (AnimationPlugin<C>, AnimationPlugin<Q>, register_animation_key::<C,K>, hand-driven Time): ALL {} frame-delta schedules of length {} over {{1/4, 8, 0}} s x ALL {} key-assignment histories (before each frame: nothing or key := A|B|C|N, including the current key) x 6 chain maps (none, A->B, A->B+B->A, A->N, B->C, reset_after(B)); initial key A (default) or B (builder) x {{one animated component, a second component Q with its own short animator}}; plus a deviation-bounded pass ({} schedules of {} frames, default delta 1/4, <= {} deviations) with <= 2 assignments. Rules: S1 component unchanged in the frame a key change is acted on; S2 animation restarted from position 0 on the new key's timeline, thereafter the component equals that timeline started from the values at the switch; S3 key without timeline: state None, component frozen; S4 re-assigning the current key restarts nothing; S5 governed animator ended on k in frame f and chain(k)=k' and the user did not re-assign => key is k' in frame f+1; S6 the key changes only by assignment or S5 (the Ended must come from the governed animator and be applied to the key that ended). non-trivial = key changes acted on + chain moves", nsched, depth, hs.len(), dev_apps, horizon, k)));
     cov.insert("exhaustive".into(), json!(true));
     cov.insert("apps".into(), json!(acc.apps));
     cov.insert("system_order_in_this_process".into(), json!(if chain_first { "chain_animations, select_animation, animate" } else { "select_animation, chain_animations, animate" }));
